@@ -302,6 +302,9 @@ type Run struct {
 	depth    int
 
 	serializationOnly bool
+	// incremental propagation state (see propagate)
+	propDone, propSigma int
+	propUnstable        []int
 	// genericNonIdentity: see SetGenericNonIdentity
 	genericNonIdentity       bool
 	GenericIdentityDecisions int
@@ -562,10 +565,30 @@ func (r *Run) propagate() {
 	if r.facts == nil {
 		r.facts = map[string]bool{}
 	}
+	// Incremental: a literal whose simplified form is a plain disequality cannot be simplified
+	// further by new facts (only by a new substitution, which triggers a full pass), so only the
+	// literals added since the last call and the not-yet-stable ones are re-examined.
 	for round := 0; round < 32; round++ {
 		changed := false
-		for _, l := range r.path {
-			n := l
+		full := len(r.sigma) != r.propSigma
+		var cand []int
+		if full {
+			cand = make([]int, len(r.path))
+			for i := range cand {
+				cand[i] = i
+			}
+			r.propUnstable = r.propUnstable[:0]
+		} else {
+			cand = append(cand, r.propUnstable...)
+			for i := r.propDone; i < len(r.path); i++ {
+				cand = append(cand, i)
+			}
+			r.propUnstable = r.propUnstable[:0]
+		}
+		r.propSigma = len(r.sigma)
+		r.propDone = len(r.path)
+		for _, i := range cand {
+			n := r.path[i]
 			if len(r.sigma) > 0 {
 				n = n.mapPolys(r.normPoly)
 			}
@@ -573,8 +596,18 @@ func (r *Run) propagate() {
 			if r.assertFact(n) {
 				changed = true
 			}
+			stable := false
+			switch v := n.(type) {
+			case pTrue:
+				stable = true
+			case pNot:
+				_, stable = v.x.(pEqZ)
+			}
+			if !stable {
+				r.propUnstable = append(r.propUnstable, i)
+			}
 		}
-		if !changed {
+		if !changed && len(r.sigma) == r.propSigma {
 			return
 		}
 	}
